@@ -126,3 +126,43 @@ Proof.
     - apply IH. intros H. apply H1. now right. }
   now rewrite X.
 Qed.
+
+(* ---------------- In / Out markers ---------------- *)
+Lemma in_filters_spec xs f : In f (in_filters xs) <-> exists m, In (f, m) xs /\ is_out m = false.
+Proof.
+  unfold in_filters, split_in_out. cbn [fst]. rewrite map_map. cbn [fst]. rewrite in_map_iff. split.
+  - intros [[g m] [E H]]. cbn [fst] in E. subst g. apply filter_In in H. destruct H as [H1 H2]. exists m. split; [exact H1|].
+    cbn [snd] in H2. now apply negb_true_iff in H2.
+  - intros [m [H1 H2]]. exists (f, m). split; [reflexivity|]. apply filter_In. split; [exact H1|]. cbn [snd]. now rewrite H2.
+Qed.
+Lemma out_filters_spec xs f : In f (out_filters xs) <-> exists m, In (f, m) xs /\ is_in m = false.
+Proof.
+  unfold out_filters, split_in_out. cbn [snd]. rewrite map_map. cbn [fst]. rewrite in_map_iff. split.
+  - intros [[g m] [E H]]. cbn [fst] in E. subst g. apply filter_In in H. destruct H as [H1 H2]. exists m. split; [exact H1|].
+    cbn [snd] in H2. now apply negb_true_iff in H2.
+  - intros [m [H1 H2]]. exists (f, m). split; [reflexivity|]. apply filter_In. split; [exact H1|]. cbn [snd]. now rewrite H2.
+Qed.
+
+(* a collection that only Out(axis) entries match is not handed to the mapped / scanned function at all: every index or
+   iteration starts without it, whatever the caller passes in *)
+Theorem out_only_not_lifted_in xs vars cv :
+  (forall f m, In (f, m) xs -> in_filter f (fst cv) = true -> is_out m = true) -> ~ In cv (inner_vars vars (in_filters xs)).
+Proof.
+  intros H C. apply lifted_present in C. destruct C as [_ C]. unfold any_filter in C. apply existsb_exists in C.
+  destruct C as [f [Hf Hm]]. apply in_filters_spec in Hf. destruct Hf as [m [Hin Ho]]. specialize (H f m Hin Hm). congruence.
+Qed.
+
+(* a collection that only In(axis) entries match is read-only inside and comes back unchanged, whatever the function does *)
+Theorem in_only_not_written_back Y body om xs mf vars y vars' c :
+  pack Y body om (in_filters xs) (out_filters xs) mf vars = POk Y y vars' ->
+  (forall f m, In (f, m) xs -> in_filter f c = true -> is_in m = true) -> cv_get c vars' = cv_get c vars.
+Proof.
+  intros HP H. apply (pack_untouched Y body om (in_filters xs) (out_filters xs) mf vars y vars' c HP).
+  unfold inner_mutable. destruct (any_filter (out_filters xs) c) eqn:E; [|now rewrite andb_false_r].
+  exfalso. unfold any_filter in E. apply existsb_exists in E. destruct E as [f [Hf Hm]]. apply out_filters_spec in Hf.
+  destruct Hf as [m [Hin Hi]]. specialize (H f m Hin Hm). congruence.
+Qed.
+
+(* an entry without a marker is both *)
+Theorem unmarked_is_both xs f a : In (f, AxBoth a) xs -> In f (in_filters xs) /\ In f (out_filters xs).
+Proof. intros H. split; [apply in_filters_spec|apply out_filters_spec]; exists (AxBoth a); split; [exact H|reflexivity | exact H | reflexivity]. Qed.
